@@ -46,5 +46,11 @@ for k in range(5):
     HARNESSES.append(dict(COMMON, src="C20_output.c", name="out_largest_%d" % k, entry="h_largest", defines={"NSLICE": 5, "SLICE": k}, encoded=OUTF + EVAL, unwind=12, unwindset=OUT_UW, tiers={"quick": {}, "thorough": {}}, cost=60,
                           stubs=COMMON["stubs"] + ["stdout: printf redirected to a capture buffer"],
                           bounds="hwloc_calc_output in --largest mode for every non-empty subset of the PUs {0,1,2,5}, logical and physical output: the printed objects are accepted by the location evaluator, pairwise disjoint, and their union is the set (concrete runs selected by symbolic inputs, slice %d of 5)" % k))
+# hwloc-diff | hwloc-patch are thin wrappers around diff_build / diff_apply: the library-side harnesses that decide "the diff reproduces the
+# second topology" (incl. what must be reported as too complex) are shared with C16 (same source, same queries)
+import importlib.util as _iu
+_s16 = _iu.spec_from_file_location("spec_C16", os.path.join(os.path.dirname(__file__), "C16.py")); _m16 = _iu.module_from_spec(_s16); _s16.loader.exec_module(_m16)
+for _h in _m16.HARNESSES:
+    if _h["name"] in ("build_distances", "build_e1", "build_e8", "apply_s1"): _h2 = dict(_h); _h2["name"] = "C16_" + _h["name"]; HARNESSES.append(_h2)
 OUTSIDE = ["process-level behaviour of the tools: exit statuses, option parsing in main(), -H, --single and the set formats of the default output mode", "lstopo exports = library exports, hwloc-diff | hwloc-patch pipeline (library side: C16)", "hwloc-distrib (arithmetic: C09 distrib)",
            "I/O, Misc and filter ([...]) locations, raw cpuset strings (C04 parsers)"]
